@@ -126,6 +126,20 @@ int main(void)
         LEAN_NAT("RELAY_RC_EVERY_LINE", th[0].rc == 3 ? 0 : 1);
     }
 
+    /* xpoll.h's interface bits, the kernel's poll(2) bits and the two errno values the poll loop of _rsh_thread
+     * distinguishes (Relay/XPoll.lean: the model of xpoll.c's HAVE_POLL flavour and of one loop iteration) */
+    LEAN_NAT("XP_XPOLLREAD", XPOLLREAD);
+    LEAN_NAT("XP_XPOLLWRITE", XPOLLWRITE);
+    LEAN_NAT("XP_XPOLLINVAL", XPOLLINVAL);
+    LEAN_NAT("XP_XPOLLERR", XPOLLERR);
+    LEAN_NAT("XP_POLLIN", POLLIN);
+    LEAN_NAT("XP_POLLOUT", POLLOUT);
+    LEAN_NAT("XP_POLLERR", POLLERR);
+    LEAN_NAT("XP_POLLHUP", POLLHUP);
+    LEAN_NAT("XP_POLLNVAL", POLLNVAL);
+    LEAN_NAT("XP_EINTR", EINTR);
+    LEAN_NAT("XP_EINVAL", EINVAL);
+
     printf("def RC_MAGIC_BYTES : List Nat := [");
     for (const char *p = RC_MAGIC; *p; p++)
         printf("%s%u", p == RC_MAGIC ? "" : ", ", (unsigned) (unsigned char) *p);
